@@ -220,7 +220,7 @@ class Search:
         self.contexts = 0
         self.nontrivial = 0
         self.tsan_reports = 0
-        self.timeout = 180
+        self.timeout = 60
 
     def record(self, sig, why, ws, extra):
         if sig in self.found:
@@ -415,7 +415,7 @@ def check(ctx):
     rng = ctx.rng("workloads")
     rounds = 0
     sizes = [2, 2, 3, 4, 8, 16] if quick else [2, 2, 2, 3, 3, 4, 4, 6, 8, 8, 12, 16]
-    max_rounds = 90 if quick else 400
+    max_rounds = 250 if quick else 4000
     while rounds < max_rounds and time.time() < t_end:
         n = sizes[rounds % len(sizes)]
         hint = "pool" if ("pool" in hints and rounds % 2 == 0) else None
